@@ -510,7 +510,7 @@ func genStubOrigin(r *Run, g *originGen) *stubOrigin {
 		}
 		t := &sTrack{id: tid, kind: kind, video: true, scale: 90000, supported: true}
 		tid++
-		p := videoParamVariant(kind, T.Intn(4))
+		p := videoParamVariant(kind, T.Intn(16))
 		switch kind {
 		case "h264":
 			t.codec = &fmp4.CodecH264{SPS: p.sps, PPS: p.pps}
@@ -518,7 +518,7 @@ func genStubOrigin(r *Run, g *originGen) *stubOrigin {
 		case "h265":
 			t.codec = &fmp4.CodecH265{VPS: p.vps, SPS: p.sps, PPS: p.pps}
 		case "vp9":
-			t.codec = &fmp4.CodecVP9{Width: p.vp9W, Height: p.vp9H, Profile: p.vp9Profile, BitDepth: 8, ChromaSubsampling: 1, ColorRange: p.vp9Range}
+			t.codec = &fmp4.CodecVP9{Width: p.vp9W, Height: p.vp9H, Profile: p.vp9Profile, BitDepth: p.vp9Depth, ChromaSubsampling: 1, ColorRange: p.vp9Range}
 		case "av1":
 			t.codec = &fmp4.CodecAV1{SequenceHeader: p.seqHdr}
 		}
@@ -671,7 +671,7 @@ func genStubOrigin(r *Run, g *originGen) *stubOrigin {
 		}
 		return u
 	}
-	uriStyle := T.Intn(4) // 0 relative, 1 subdir, 2 absolute other host, 3 query-carrying
+	uriStyle := T.Intn(7) // 0 relative, 1 subdir, 2 absolute other host, 3 query-carrying, 4 root-relative, 5 network-path, 6 parent-relative
 	for si, st := range o.streams {
 		st.plURL = mkURL(scheme + host + dir + st.name + ".m3u8" + q)
 		seq := uint32(T.Intn(100))
@@ -702,8 +702,14 @@ func genStubOrigin(r *Run, g *originGen) *stubOrigin {
 				sg.uri = "media/" + name
 			case 2:
 				sg.uri = "http://cdn.example:8080/x/" + name
-			default:
+			case 3:
 				sg.uri = name + "?tok=" + strconv.Itoa(sg.idx)
+			case 4:
+				sg.uri = "/rootrel/media/" + name
+			case 5:
+				sg.uri = "//cdn2.example/np/" + name
+			default:
+				sg.uri = "../up/" + name
 			}
 			if useBR {
 				sg.hasBR = true
